@@ -112,7 +112,7 @@ def run(ctx):
     results = []
     mgr = None
     for i in range(100 if ctx.quick else 700):
-        name = names[i % len(names)]
+        name = gen.rotate(names, i, ctx.quick)
         spec = dunit.general_spec(rng, name, max_calls=3, metrics=0, sizes=(2, 3, 5), max_points=30, n_max=14, memory=True, dups=0.25,
                                   verbosity=False, ndims=rng.choice([1, 2, 2, 3]), steps_api=False)
         if name in ("GeneticAlgorithmOptimizer", "DifferentialEvolutionOptimizer"):
